@@ -157,6 +157,89 @@ func parityEven(fa *FA, c Cond, container string) (isParity, even bool) {
 	return false, false
 }
 
+// rankRecurrence recognises the store idx[i] = idx[i-1] + popcount(words[i-1]) (see reportRankBuilders). isRec is
+// false when the store has a different shape altogether; why is empty when the recurrence is the right one.
+func rankRecurrence(fa *FA, fn *ssa.Function, ins ssa.Instruction) (why string, isRec bool) {
+	st, ok := ins.(*ssa.Store)
+	if !ok {
+		return "", false
+	}
+	ia, ok := st.Addr.(*ssa.IndexAddr)
+	if !ok {
+		return "", false
+	}
+	mk, ok := ia.X.(*ssa.MakeSlice)
+	if !ok {
+		return "", false
+	}
+	L := fa.Lin(st.Val)
+	il := fa.Lin(ia.Index)
+	nPrev, nPop := 0, 0
+	for atom, coef := range L.T {
+		v := fa.AtomValue(atom)
+		if c, i, ok := asElemLoad(v); ok && c == ssa.Value(mk) {
+			if coef != 1 || !fa.Lin(i).Eq(il.Add(linConst(-1))) {
+				return "the entry is built from idx[" + fa.Lin(i).String() + "], not from the entry in front of it", true
+			}
+			nPrev++
+			continue
+		}
+		if call, ok := v.(*ssa.Call); ok && strings.HasPrefix(calleeName(call.Common()), "math/bits.OnesCount") {
+			x, i, ok := asElemLoad(call.Common().Args[0])
+			if !ok || containerRole(x) != "words" {
+				return "the popcount added is not that of a word of the bitmap", true
+			}
+			if calleeName(call.Common()) != "math/bits.OnesCount64" {
+				return "the popcount of a 64-bit word is taken with " + calleeName(call.Common()), true
+			}
+			if coef != 1 || !fa.Lin(i).Eq(il.Add(linConst(-1))) {
+				return "entry i adds words[" + fa.Lin(i).String() + "], the word in front of entry i is words[i-1]", true
+			}
+			nPop++
+			continue
+		}
+		return "", false
+	}
+	if nPrev != 1 || nPop != 1 {
+		return "", false
+	}
+	if L.K != 0 {
+		return "the recurrence adds a constant", true
+	}
+	iv, ok := fa.InductionOf(ia.Index, st.Block())
+	if !ok || !iv.FirstConst || iv.First != 1 || iv.Step != 1 || !iv.HasN {
+		return "the recurrence does not run over i = 1, 2, ...", true
+	}
+	if !iv.N.Eq(fa.Lin(mk.Len)) {
+		okN := false
+		for _, alt := range fa.LinAlts(mk.Len, 4) {
+			if iv.N.Eq(alt) {
+				okN = true
+			}
+		}
+		if !okN && fa.VN(stripConv(mk.Len)) != fa.VN(fa.AtomValueOfLin(iv.N)) {
+			return "the recurrence stops at " + iv.N.String() + ", not at the length of the index", true
+		}
+	}
+	if ee := fa.earlyExit(iv); ee != "" {
+		return "the recurrence can be left early: " + ee, true
+	}
+	lw := linAtom("call:builtin len(p0)")
+	for _, src := range resolvePhi(mk.Len) {
+		if sl := fa.Lin(src); !sl.Eq(lw) && !sl.Eq(lw.Add(linConst(1))) {
+			return "index length must be len(words) or len(words)+1, found " + sl.String(), true
+		}
+	}
+	for _, ret := range returnsOf(fn) {
+		for _, src := range resolvePhi(ret.Results[0]) {
+			if src != ssa.Value(mk) {
+				return "the return hands back something other than the index that was built", true
+			}
+		}
+	}
+	return "", true
+}
+
 // flowsFromMake: v is the slice allocated by mk, possibly re-sliced or merged.
 func flowsFromMake(v ssa.Value, mk *ssa.MakeSlice) bool {
 	for _, s := range resolvePhi(v) {
@@ -205,6 +288,21 @@ func reportRankBuilders(w *World, r *Report, fns map[string]*ssa.Function, build
 				}
 			}
 		})
+		// recurrence form: idx[i] = idx[i-1] + popcount(words[i-1]) for i = 1 .. len(idx)-1 over a zeroed index: entry 0
+		// is 0 and every entry adds the word in front of it - the exclusive prefix, the trailing total included
+		if bn == "bitmap.IndexRank64" && len(entries) == 1 {
+			if why, isRec := rankRecurrence(fa, fn, entries[0].ins); isRec {
+				if why != "" {
+					r.Bad("R-EXCL", bn, w.Pos(fn.Pos()), why)
+				} else {
+					r.OK("R-EXCL", bn, w.Pos(fn.Pos()), "recurrence idx[i] = idx[i-1] + popcount(words[i-1]), i = 1 .. len(idx)-1, over a zeroed index of len(words) or len(words)+1 entries")
+					r.OK("R-TRAIL", bn+"|len", w.Pos(fn.Pos()), "recurrence form: the length decides whether the grand total is there")
+					r.OK("R-TRAIL", bn+"|total", w.Pos(fn.Pos()), "recurrence form: entry len(words) is entry len(words)-1 plus the last word")
+					strideOf[bn] = 1
+				}
+				continue
+			}
+		}
 		var acc *ssa.Phi
 		bad := ""
 		for _, e := range entries {
@@ -273,6 +371,31 @@ func reportRankBuilders(w *World, r *Report, fns map[string]*ssa.Function, build
 		} else {
 			r.OK("R-EXCL", bn, w.Pos(fn.Pos()), facts...)
 			strideOf[bn] = ai.Step
+			// a per-word loop that writes its entry only when the word index is a multiple of m (i&1 == 0): one
+			// entry per m words, the words in between are counted by the rounds that write nothing
+			if ai.IVPhi != nil && ai.Step == 1 {
+				for _, e := range entries {
+					if !loopBody(ai.IVPhi.Block())[e.ins.Block()] {
+						continue
+					}
+					for _, cd := range fa.Conds(e.ins.Block()) {
+						bo, ok := cd.V.(*ssa.BinOp)
+						if !ok || !(bo.Op == token.EQL && cd.Pol || bo.Op == token.NEQ && !cd.Pol) {
+							continue
+						}
+						for _, side := range [2][2]ssa.Value{{bo.X, bo.Y}, {bo.Y, bo.X}} {
+							x, j, okM := asLowMask(side[0])
+							k, okK := constInt64(stripConv(side[1]))
+							if !okM || !okK || k != 0 || j < 1 || j > 6 {
+								continue
+							}
+							if iv, okI := fa.InductionOf(x, e.ins.Block()); okI && iv.Phi == ai.IVPhi && iv.FirstConst && iv.First%(1<<uint(j)) == 0 && iv.Step == 1 {
+								strideOf[bn] = int64(1) << uint(j)
+							}
+						}
+					}
+				}
+			}
 		}
 		// the entry for block k must be written once per iteration: the in-loop write is in a block
 		// that dominates the back edge (not conditional)
